@@ -1820,6 +1820,8 @@ static int create_factor_space (
 	{
 		f->uc_space = nzcnt * f->uc_space_mul;
 		ILL_SAFE_MALLOC (f->ucindx, f->uc_space + 1, int);
+		for (i = 0; i <= f->uc_space; i++)
+			f->ucindx[i] = -1;					/* every slot starts out free */
 	}
 
 	if (f->urindx == 0 || f->urcoef == 0)
@@ -1829,6 +1831,8 @@ static int create_factor_space (
 		EGLPNUM_TYPENAME_EGlpNumFreeArray (f->urcoef);
 		f->ur_space = nzcnt * f->ur_space_mul;
 		ILL_SAFE_MALLOC (f->urindx, f->ur_space + 1, int);
+		for (i = 0; i <= f->ur_space; i++)
+			f->urindx[i] = -1;					/* every slot starts out free */
 
 		f->urcoef = EGLPNUM_TYPENAME_EGlpNumAllocArray (f->ur_space);
 	}
